@@ -24,6 +24,7 @@ type histOpts struct {
 	readAt    int
 	byteAt    int
 	peekAt    int
+	ntlPair   int // macro: Parse(NoTrailingLiterals) directly followed by another Parse
 	ntl       int // percentage of Parse calls with NoTrailingLiterals
 	faults    bool
 	overReset bool // draw Reset data longer than BufferSize now and then
@@ -95,7 +96,7 @@ func genParserHistory(t *rapid.T, x *parserExec, o histOpts) {
 			}
 		} else {
 			op = weighted(t, "op", o.write, o.fill, o.parse, o.drain, o.shrink, o.readFrom,
-				o.parseNil, o.resetNil, o.resetDat, o.readAt, o.byteAt, o.peekAt)
+				o.parseNil, o.resetNil, o.resetDat, o.readAt, o.byteAt, o.peekAt, o.ntlPair)
 		}
 		switch op {
 		case 0: // write a chunk
@@ -153,6 +154,9 @@ func genParserHistory(t *rapid.T, x *parserExec, o histOpts) {
 			x.step(POp{Op: "readat", Off: off, Len: ln})
 		case 10:
 			x.step(POp{Op: "byteat", Off: genOffset(t, x)})
+		case 12:
+			x.step(POp{Op: "parse", Flags: lz.NoTrailingLiterals})
+			x.step(POp{Op: "parse", Flags: genFlags(t, o)})
 		case 11:
 			off := genOffset(t, x)
 			ln := genSize(t, "pklen", x.buffered()+3, 0, 1)
